@@ -146,7 +146,7 @@ def emit_unit(u, order, exclude=()):
         if name not in u.methods:
             continue
         try:
-            if name == "fill_bytes":
+            if name == "fill_bytes" and not hasattr(u, "translate_fn"):
                 d = translate_fill_bytes(u, u.methods[name])
             elif name == "from_seed":
                 d = translate_fn(u, name)
@@ -156,6 +156,8 @@ def emit_unit(u, order, exclude=()):
                 d = translate_fn(u, name)
                 if "rec_from_seed" in d:
                     d = d.replace("def seed_from_u64 ", "def seed_from_u64 (rec_from_seed : List U8 → " + u.sinfo.lean + ") ", 1)
+            elif hasattr(u, "translate_fn"):
+                d = u.translate_fn(name)
             else:
                 d = translate_fn(u, name)
             missing = [m for m in re.findall(re.escape(u.namespace) + r"\.(\w+)", d) if m not in done and m != name]
@@ -245,6 +247,7 @@ HEADER = """/-
   Part 2: for each, the theorem that it equals the hand-written model (namespace Rngs.ExtTie).
 -/
 import Rngs.Lib.ExtTie
+import Rngs.Lib.ExtTieJitter
 set_option linter.unusedVariables false
 set_option maxRecDepth 4096
 namespace Rngs
@@ -268,10 +271,16 @@ def generate(repo, exclude=None):
         report["XorShiftRng"] = dict(error=repr(e))
     # rand_jitter: the pure mixing core
     try:
+        done_by = {}
         for u, order in build_units_jitter(repo):
+            if hasattr(u, "ext_done"):
+                u.ext_done = {k: set(done_by.get(k, ())) for k in u.ext_done}
             text, done, skipped = emit_unit(u, order, exclude.get(u.name, {}))
+            done_by[u.name] = done
             parts.append(text)
             report[u.name] = dict(file=u.file, translated=done, skipped=skipped, shape=u.shape, seed_len=u.seed_len)
+            if getattr(u, "notes", None):
+                report[u.name]["notes"] = {k: v for k, v in u.notes.items() if k in done}
             theorems += jitter_theorems(u, done)
     except Exception as e:
         report["rand_jitter"] = dict(error=repr(e))
@@ -310,11 +319,11 @@ def build_units_jitter(repo):
         if ty == "EcState" and trait is None:
             em.update({k: v for k, v in fns.items() if v.body is not None})
     units = []
-    # JitterRng: state = the model's Jitter.Rng (fields data, rounds, memPrevIndex, halfUsed); only `data` is touched here
+    # JitterRng: state = the model's Jitter.Rng (fields data, rounds, memPrevIndex, halfUsed); `stir_pool` (pure) is translated
+    # by the plain translator, everything else by the monadic one (rs2lean_tm.py), which emits this unit LAST (it calls the others)
     ju = Unit("JitterRng", StructInfo("JitterRng", "Jitter.Rng", {"data": ("u64", "data")}),
               {k: v for k, v in jm.items() if k in ("stir_pool",)}, {}, macros, {}, "Rngs.Ext.JitterRng")
     ju.shape, ju.seed_len, ju.file = ("Jitter", 64), None, "rand_jitter/src/lib.rs"
-    units.append((ju, ["stir_pool"]))
     # the nested fn lfsr(data, time) as a unit without state
     if "lfsr_time" in jm:
         try:
@@ -329,7 +338,15 @@ def build_units_jitter(repo):
               {k: v for k, v in em.items() if k == "stuck"}, {}, macros, {}, "Rngs.Ext.EcState")
     eu.shape, eu.seed_len, eu.file = ("Ec", 32), None, "rand_jitter/src/lib.rs"
     units.append((eu, ["stuck"]))
+    import rs2lean_tm
+    tu = rs2lean_tm.TmUnit(repo)
+    tu.name, tu.shape, tu.seed_len, tu.file, tu.plain = "JitterRng", ("Jitter", 64), None, "rand_jitter/src/lib.rs", ju
+    tu.methods = {k[1]: v for k, v in tu.jf.methods.items() if k[0] == "JitterRng"}
+    units.append((tu, JITTER_ORDER))
     return units
+
+JITTER_ORDER = ["stir_pool", "random_loop_cnt", "lfsr_time", "memaccess", "measure_jitter", "gen_entropy", "test_timer", "timer_stats",
+                "set_rounds", "new_with_timer", "clone", "next_u64", "next_u32", "fill_bytes"]
 
 def build_units_hc(repo):
     """rand_hc: the message-schedule functions f1, f2 (nested in Hc128Core::init)"""
